@@ -576,6 +576,19 @@ example : ∃ q1 n q3 q4,
           [.from [0], .rowNumber 9 .rowsAll [0] [], .filter (.lte (.col 9) (.int 2)), .union [1] true, .except [2] false, .select [0]],
           _, by decide, by decide, by decide, rfl⟩
 
+/-- `prune_inputs`: of the columns of a relation instance exactly those survive that the instance's own transform or a
+transform BEHIND it mentions - in their order, nothing invented; a column that only a transform IN FRONT of the instance
+mentions does not keep it alive -/
+theorem prune_keeps_what_is_mentioned_behind (before after : List (Model.Preprocess.Tr × Info)) (cols : List CId) (i : Info) :
+    ∃ kept rest, ((before ++ (.from cols, i) :: after).reverse.foldl pruneStep ([], [])).2 =
+        (after.reverse.foldl pruneStep ([], [])).2 ++ kept :: rest ∧ kept.Sublist cols ∧
+      ∀ c, c ∈ kept ↔ c ∈ cols ∧ (c ∈ i.reads.getD [] ∨ ∃ t ∈ after, c ∈ t.2.reads.getD []) :=
+  pruned_from_mem before after cols i
+
+example : pruneInputs [(.from [0, 1, 2, 3], ⟨none, none⟩), (.select [0, 1, 2], ⟨some [0, 1, 2], none⟩),
+      (.join .inner [4, 5, 6] (.eq (.col 0) (.col 4)), ⟨some [0, 4], none⟩), (.filter (.other 0), ⟨some [1], none⟩), (.select [0, 5], ⟨some [0, 5], none⟩)]
+    = [[0, 1, 2], [4, 5]] := by decide
+
 /-- after `union` no Append is left -/
 theorem union_eliminates_append (p : List Model.Preprocess.Tr) : ∀ t ∈ union p, isAppend t = false := union_no_append p
 
